@@ -9,6 +9,8 @@ use core::{
     time::Duration,
 };
 
+#[cfg(kanal_verif)]
+use crate::verif::std;
 use std::thread::available_parallelism;
 
 /// Puts the current thread to sleep for a specified duration.
